@@ -27,5 +27,5 @@ def build():
          "            ensures (match sel { Ok(p) => p@ == ssl::acme_tls_1() && ssl::wire_offers(client@, ssl::acme_tls_1()),\n"
          "                                 Err(e) => e == AlpnError::ALERT_FATAL && !ssl::wire_offers(client@, ssl::acme_tls_1()) }) //@C16.alpn_callback\n        {"),
         ("T-ITER", r"for stream in listener\.incoming\(\)", "for stream in listener.incoming()", 2),
-    ], at=[("before_stmt", "let listen_addr", 1, 'proof { reveal_strlit("unix:"); }')])})
+    ], at=[("before_stmt_re", r"let \w+ = &listen_addr\[", 1, 'proof { reveal_strlit("unix:"); }')])})
     return u
